@@ -1,4 +1,66 @@
+//! C14: login protocol-version views. For every behaviour record of a login message of protocol
+//! version N (from spec/WowmWire.tla): decode with version N's own reader, lift into the collective
+//! (latest) type, lower again and compare value and bytes; decode through the protocol-parameterised
+//! opcode reader and write through `write_protocol`, comparing with the lifted value and the bytes.
+//!
+//! stdin: codec records with exp == "login"; stdout: non-ok verdict lines + summary.
+
+#[path = "generated/collective_dispatch.rs"]
+mod collective_dispatch;
+
+use crate::util::{bytes_of, guarded, hex, install_quiet_panic_hook};
+use serde_json::{json, Value};
+use std::io::{BufRead, Write};
+
 pub fn run(_args: &[String]) -> i32 {
-    eprintln!("collective: not built yet");
-    2
+    install_quiet_panic_hook();
+    let stdin = std::io::stdin();
+    let stdout = std::io::stdout();
+    let mut w = std::io::BufWriter::new(stdout.lock());
+    let (mut n, mut ok) = (0u64, 0u64);
+    for line in stdin.lock().lines() {
+        let line = match line {
+            Ok(l) => l,
+            Err(_) => break,
+        };
+        if line.trim().is_empty() {
+            continue;
+        }
+        let rec: Value = match serde_json::from_str(&line) {
+            Ok(v) => v,
+            Err(e) => {
+                eprintln!("bad record: {e}");
+                return 2;
+            }
+        };
+        if rec["kind"] != "codec" || rec["exp"] != "login" {
+            continue;
+        }
+        n += 1;
+        writeln!(w, "@{n}").unwrap();
+        w.flush().unwrap();
+        let mut input = bytes_of(&rec["hdr"]);
+        input.extend_from_slice(&bytes_of(&rec["body"]));
+        let lv = rec["lv"].as_u64().unwrap_or(0);
+        let client = rec["dir"] == "client";
+        let res = guarded(|| collective_dispatch::check(lv, client, &input));
+        let verdict = match res {
+            Ok(Ok(())) => {
+                ok += 1;
+                continue;
+            }
+            Ok(Err(e)) => json!({"verdict": "mismatch", "detail": {"error": e, "input": hex(&input)}}),
+            Err(p) => json!({"verdict": "panic", "detail": {"panic": p, "input": hex(&input)}}),
+        };
+        let mut v = verdict;
+        v["id"] = rec["id"].clone();
+        v["name"] = rec["name"].clone();
+        v["exp"] = rec["exp"].clone();
+        v["lv"] = rec["lv"].clone();
+        v["dir"] = rec["dir"].clone();
+        v["prof"] = rec["prof"].clone();
+        writeln!(w, "{v}").unwrap();
+    }
+    writeln!(w, "{}", json!({"summary": {"records": n, "ok": ok}})).unwrap();
+    0
 }
